@@ -41,7 +41,7 @@ def run(ctx):
                'as [obligation: WF_net] + [dest.den := documented value of the primitive]; WireVector / Const / '
                'LogicNet constructors modelled as records; Const(int) through the _convert_int contract')
     combfam.run_comb_family(ctx, 'C06.operators', cases(ctx.tier), FUNCS,
-                            'operator result differs from the exact integer result')
+                            'operator result differs from the exact integer result', opts=dict(const_twins=4))
     ctx.assume('z3 soundness; spec/netsem.py; spec functions in fam/cases_ops.py state the documented result')
     return ctx.finish('other', './check C06', ['z3', 'pyvc', 'spec/netsem.py', 'elab/n2smt.py'],
                       'P: (len, den) contracts of _two_var_op, __invert__, __getitem__, _extend_with_bit, concat, select, '
